@@ -46,6 +46,170 @@ pub mod openssl {
         }
         }
     }
+    pub mod nid {
+        use vstd::prelude::*;
+        verus! {
+        #[derive(Clone, Copy, PartialEq, Eq, Debug)]
+        pub struct Nid { pub id: u32 }
+        impl Nid {
+            pub const X9_62_PRIME256V1: Nid = Nid { id: 415 };
+            pub const SECP384R1: Nid = Nid { id: 715 };
+            pub const SECP521R1: Nid = Nid { id: 716 };
+        }
+        }
+    }
+    pub mod bn {
+        use vstd::prelude::*;
+        use super::error::ErrorStack;
+        verus! {
+        // a non-negative big integer, seen through its minimal big-endian byte string
+        pub struct BigNum { pub be: Ghost<Seq<u8>> }
+        pub type BigNumRef = BigNum;
+        pub struct BigNumContext { pub x: u8 }
+        impl BigNumContext { #[verifier::external_body] pub fn new() -> (r: Result<BigNumContext, ErrorStack>) ensures r is Ok { unimplemented!() } }
+        pub open spec fn left_pad(b: Seq<u8>, n: int) -> Seq<u8> { Seq::new((n - b.len()) as nat, |i: int| 0u8) + b }
+        // Vec::resize_with(n, || 0) on a Vec<u8>  (rule T-ITER)
+        #[verifier::external_body]
+        pub fn resize_zero(v: &mut Vec<u8>, n: usize)
+            ensures final(v)@.len() == n, forall|i: int| 0 <= i < n ==> final(v)@[i] == (if i < old(v)@.len() { old(v)@[i] } else { 0u8 })
+        { v.resize_with(n, || 0) }
+        impl BigNum {
+            #[verifier::external_body]
+            pub fn new() -> (r: Result<BigNum, ErrorStack>) ensures r is Ok { unimplemented!() }
+            // BN_bn2bin: minimal length, big endian
+            #[verifier::external_body]
+            pub fn to_vec(&self) -> (r: Vec<u8>) ensures r@ == self.be@ { unimplemented!() }
+            // BN_bn2binpad: fixed width, error when the number does not fit
+            #[verifier::external_body]
+            pub fn to_vec_padded(&self, n: i32) -> (r: Result<Vec<u8>, ErrorStack>)
+                ensures r matches Ok(v) ==> n >= 0 && self.be@.len() <= n && v@ == left_pad(self.be@, n as int) { unimplemented!() }
+        }
+        }
+    }
+    pub mod hash {
+        use vstd::prelude::*;
+        verus! {
+        #[derive(Clone, Copy)]
+        pub struct MessageDigest { pub id: u8 }   // 0 = null, 1 = sha256, 2 = sha384, 3 = sha512
+        impl MessageDigest {
+            #[verifier::external_body] pub fn null() -> (r: MessageDigest) ensures r.id == 0 { unimplemented!() }
+            #[verifier::external_body] pub fn sha256() -> (r: MessageDigest) ensures r.id == 1 { unimplemented!() }
+            #[verifier::external_body] pub fn sha384() -> (r: MessageDigest) ensures r.id == 2 { unimplemented!() }
+            #[verifier::external_body] pub fn sha512() -> (r: MessageDigest) ensures r.id == 3 { unimplemented!() }
+        }
+        }
+    }
+    pub mod pkey {
+        use vstd::prelude::*;
+        use super::error::ErrorStack;
+        verus! {
+        pub struct Private { pub x: u8 }
+        #[derive(PartialEq, Eq, Clone, Copy)]
+        pub struct Id { pub id: u8 }
+        impl Id {
+            pub const RSA: Id = Id { id: 1 };
+            pub const EC: Id = Id { id: 2 };
+            pub const ED25519: Id = Id { id: 3 };
+            pub const ED448: Id = Id { id: 4 };
+        }
+        // what kind of key this is: (id, RSA modulus size in bytes, EC curve nid)
+        pub ghost struct KeyKind { pub id: Id, pub rsa_size: u32, pub curve: Option<super::nid::Nid> }
+        pub struct PKey<T> { pub kind: Ghost<KeyKind>, pub ident: Ghost<int>, pub p: Option<T> }
+        // which (id, size, curve) combinations OpenSSL can hand back for a parsed private key
+        pub open spec fn kind_consistent(k: KeyKind) -> bool {
+            (k.id == Id::RSA ==> k.curve is None) && (k.id == Id::EC ==> k.rsa_size == 0)
+            && (k.id != Id::RSA && k.id != Id::EC ==> k.rsa_size == 0 && k.curve is None)
+        }
+        impl PKey<Private> {
+            #[verifier::external_body]
+            pub fn private_key_from_der(d: &[u8]) -> (r: Result<PKey<Private>, ErrorStack>)
+                ensures r matches Ok(k) ==> kind_consistent(k.kind@) { unimplemented!() }
+            #[verifier::external_body]
+            pub fn private_key_from_pem(d: &[u8]) -> (r: Result<PKey<Private>, ErrorStack>)
+                ensures r matches Ok(k) ==> kind_consistent(k.kind@) { unimplemented!() }
+        }
+        impl<T> PKey<T> {
+            #[verifier::external_body]
+            pub fn id(&self) -> (r: Id) ensures r == self.kind@.id { unimplemented!() }
+            #[verifier::external_body]
+            pub fn rsa(&self) -> (r: Result<super::rsa::Rsa<T>, ErrorStack>)
+                ensures (self.kind@.id == Id::RSA ==> r is Ok), (r matches Ok(k) ==> k.size == self.kind@.rsa_size && k.ident == self.ident) { unimplemented!() }
+            #[verifier::external_body]
+            pub fn ec_key(&self) -> (r: Result<super::ec::EcKey<T>, ErrorStack>)
+                ensures (self.kind@.id == Id::EC ==> r is Ok), (r matches Ok(k) ==> k.curve@ == self.kind@.curve && k.ident == self.ident) { unimplemented!() }
+        }
+        }
+    }
+    pub mod rsa {
+        use vstd::prelude::*;
+        verus! {
+        pub struct Rsa<T> { pub size: u32, pub ident: Ghost<int>, pub p: Option<T> }
+        pub uninterp spec fn rsa_e(ident: int) -> Seq<u8>;
+        pub uninterp spec fn rsa_n(ident: int) -> Seq<u8>;
+        impl<T> Rsa<T> {
+            #[verifier::external_body] pub fn size(&self) -> (r: u32) ensures r == self.size { unimplemented!() }
+            #[verifier::external_body] pub fn e(&self) -> (r: &super::bn::BigNumRef) ensures r.be@ == rsa_e(self.ident@) { unimplemented!() }
+            #[verifier::external_body] pub fn n(&self) -> (r: &super::bn::BigNumRef) ensures r.be@ == rsa_n(self.ident@) { unimplemented!() }
+        }
+        }
+    }
+    pub mod ec {
+        use vstd::prelude::*;
+        use super::error::ErrorStack;
+        use super::nid::Nid;
+        verus! {
+        pub struct EcGroup { pub curve: Ghost<Option<Nid>> }
+        pub type EcGroupRef = EcGroup;
+        pub struct EcPoint { pub ident: Ghost<int> }
+        pub type EcPointRef = EcPoint;
+        pub struct EcKey<T> { pub curve: Ghost<Option<Nid>>, pub ident: Ghost<int>, pub p: Option<T> }
+        pub type EcKeyRef<T> = EcKey<T>;
+        pub uninterp spec fn ec_x(ident: int) -> Seq<u8>;   // affine coordinates of the public point, minimal big endian
+        pub uninterp spec fn ec_y(ident: int) -> Seq<u8>;
+        // byte size of the field / of the group order for the three supported curves
+        pub open spec fn curve_size(c: Option<Nid>) -> int {
+            if c == Some(Nid::X9_62_PRIME256V1) { 32 } else if c == Some(Nid::SECP384R1) { 48 } else if c == Some(Nid::SECP521R1) { 66 } else { 0 }
+        }
+        impl EcGroup {
+            #[verifier::external_body]
+            pub fn from_curve_name(n: Nid) -> (r: Result<EcGroup, ErrorStack>)
+                ensures (n == Nid::X9_62_PRIME256V1 || n == Nid::SECP384R1 || n == Nid::SECP521R1) ==> r is Ok,
+                        r matches Ok(g) ==> g.curve@ == Some(n) { unimplemented!() }
+            #[verifier::external_body]
+            pub fn curve_name(&self) -> (r: Option<Nid>) ensures r == self.curve@ { unimplemented!() }
+        }
+        impl<T> EcKey<T> {
+            #[verifier::external_body] pub fn group(&self) -> (r: &EcGroupRef) ensures r.curve == self.curve { unimplemented!() }
+            #[verifier::external_body] pub fn public_key(&self) -> (r: &EcPointRef) ensures r.ident == self.ident { unimplemented!() }
+            #[verifier::external_body] pub fn as_ref(&self) -> (r: &EcKeyRef<T>) ensures *r == *self { unimplemented!() }
+        }
+        impl EcPoint {
+            // coordinates are field elements: they fit in curve_size bytes
+            #[verifier::external_body]
+            pub fn affine_coordinates_gfp(&self, g: &EcGroupRef, x: &mut super::bn::BigNum, y: &mut super::bn::BigNum, ctx: &mut super::bn::BigNumContext) -> (r: Result<(), ErrorStack>)
+                ensures r is Ok ==> final(x).be@ == ec_x(self.ident@) && final(y).be@ == ec_y(self.ident@)
+                    && final(x).be@.len() <= curve_size(g.curve@) && final(y).be@.len() <= curve_size(g.curve@) { unimplemented!() }
+        }
+        }
+    }
+    pub mod ecdsa {
+        use vstd::prelude::*;
+        use super::error::ErrorStack;
+        verus! {
+        pub struct EcdsaSig { pub r: super::bn::BigNum, pub s: super::bn::BigNum }
+        // (r, s) is an ECDSA signature of digest under the key: a relation (the signature is randomised)
+        pub uninterp spec fn ecdsa_valid(key_ident: int, digest: Seq<u8>, r: Seq<u8>, s: Seq<u8>) -> bool;
+        impl EcdsaSig {
+            // r and s are below the group order: they fit in curve_size bytes
+            #[verifier::external_body]
+            pub fn sign<T>(digest: &Vec<u8>, key: &super::ec::EcKeyRef<T>) -> (r: Result<EcdsaSig, ErrorStack>)
+                ensures r matches Ok(sig) ==> ecdsa_valid(key.ident@, digest@, sig.r.be@, sig.s.be@)
+                    && sig.r.be@.len() <= super::ec::curve_size(key.curve@) && sig.s.be@.len() <= super::ec::curve_size(key.curve@) { unimplemented!() }
+            #[verifier::external_body] pub fn r(&self) -> (b: &super::bn::BigNumRef) ensures *b == self.r { unimplemented!() }
+            #[verifier::external_body] pub fn s(&self) -> (b: &super::bn::BigNumRef) ensures *b == self.s { unimplemented!() }
+        }
+        }
+    }
     pub mod x509 {
         use vstd::prelude::*;
         verus! {
